@@ -234,6 +234,14 @@ Theorem C11_gen_cross_support_eq : forall nr nc len inten I IM,
     P.arms_arr C nr nc (cross_support nr nc I len inten).
 Proof. exact (P.gen_cross_support G.cross_support eq_refl). Qed.
 
+(* the evaluator computes with unbounded integers while the arms are stored in an int16 array:
+   the store is exact as soon as cbca_distance <= 32768 or both image sides are <= 32768 *)
+Theorem C11_gen_arms_fit_int16 : forall nr nc len inten I r c k,
+  1 <= len -> 0 <= r < nr -> 0 <= c < nc -> 0 <= k < 4 ->
+  len <= 32768 \/ (nr <= 32768 /\ nc <= 32768) ->
+  0 <= P.arm_at (cross_support nr nc I len inten r c) k <= 32767.
+Proof. exact P.arms_fit_int16. Qed.
+
 (* cbca_step_1 as written in the source = Model.step1 (cv: NaN where the cost is not computable) *)
 Theorem C11_gen_step1_eq : forall nr nc cv A,
   0 <= nr -> 0 <= nc -> IR.ashape A = [nr; nc] ->
@@ -375,6 +383,7 @@ Print Assumptions C11_gen_step2_canonical.
 Print Assumptions C11_gen_step3_canonical.
 Print Assumptions C11_gen_step4_canonical.
 Print Assumptions C11_gen_cross_support_eq.
+Print Assumptions C11_gen_arms_fit_int16.
 Print Assumptions C11_gen_step1_eq.
 Print Assumptions C11_gen_step2_eq.
 Print Assumptions C11_gen_step3_eq.
